@@ -136,12 +136,18 @@ class History:
             t = shadow[r.choice(outside)]
             extra = [mk(r)] if r.random() < 0.5 else []
             toks = extra + [t] if r.random() < 0.5 else [t] + extra
+            if r.random() < 0.25:
+                # ... or one new token twice in the batch: it cannot sit at two places either
+                t = mk(r)
+                extra = [t]
+                toks = [t, mk(r), t] if r.random() < 0.5 else [t, t]
+                how += '-twice'
             info.update(i=i, j=j, live=how, changed=False)
-            self.log.append((op, how, i, j, shadow.index(t)))
+            self.log.append((op, how, i, j, shadow.index(t) if how.endswith('-twice') is False else None))
             try:
-                if how == 'splice':
+                if how.startswith('splice'):
                     store.splice(toks, shadow[i], shadow[j])
-                elif how == 'ins_before':
+                elif how.startswith('ins_before'):
                     store.insert_before(shadow[i], toks)
                 else:
                     store.insert_after(shadow[i], toks)
